@@ -283,6 +283,10 @@ impl InsertionHeuristic {
             match result {
                 InsertionResult::Success(success) => {
                     apply_insertion_success(&mut insertion_ctx, success);
+                    #[cfg(reinterpretcat_vrp_verif)]
+                    {
+                        verif_observer::notify(&insertion_ctx);
+                    }
                 }
                 InsertionResult::Failure(failure) => {
                     // NOTE copy data to make borrow checker happy
@@ -452,4 +456,36 @@ fn copy_selection_data(
     let jobs = jobs.iter().map(|&job| job.clone()).collect::<Vec<_>>();
 
     (route_indices, jobs)
+}
+
+/// Verification hook: an observer called after each applied insertion.
+#[cfg(reinterpretcat_vrp_verif)]
+pub mod verif_observer {
+    use super::InsertionContext;
+    use std::cell::RefCell;
+
+    /// An observer function type.
+    pub type Observer = Box<dyn FnMut(&InsertionContext)>;
+
+    thread_local! {
+        static OBSERVER: RefCell<Option<Observer>> = RefCell::new(None);
+    }
+
+    /// Installs observer for the current thread.
+    pub fn install(observer: Observer) {
+        OBSERVER.with(|o| *o.borrow_mut() = Some(observer));
+    }
+
+    /// Removes observer from the current thread.
+    pub fn uninstall() -> Option<Observer> {
+        OBSERVER.with(|o| o.borrow_mut().take())
+    }
+
+    pub(super) fn notify(insertion_ctx: &InsertionContext) {
+        // NOTE observer is taken out for the duration of the call to allow nested heuristics
+        if let Some(mut observer) = OBSERVER.with(|o| o.borrow_mut().take()) {
+            observer(insertion_ctx);
+            OBSERVER.with(|o| *o.borrow_mut() = Some(observer));
+        }
+    }
 }
